@@ -308,6 +308,13 @@ impl<C: ContentAddrStore> UnsealedState<C> {
 #[derivative(Clone(bound = ""))]
 pub struct SealedState<C: ContentAddrStore>(UnsealedState<C>, Option<ProposerAction>);
 
+#[cfg(melstf_verif)]
+impl<C: ContentAddrStore> SealedState<C> {
+    pub(crate) fn inner_unsealed(&self) -> &UnsealedState<C> {
+        &self.0
+    }
+}
+
 impl<C: ContentAddrStore> SealedState<C> {
     /// Obtains an unspent coin in the state.
     pub fn coin(&self, id: CoinID) -> Option<CoinDataHeight> {
